@@ -70,7 +70,8 @@ TRACE_CONSTANTS = "CONSTANTS\n" + "\n".join(
 
 # ------------------------------------------------------------------ one run
 def split_positions(n, cap):
-    """1..n-1, thinned for long inputs (all of the first 48 and last 8, then strided)."""
+    """Split points 1..n-1; for inputs longer than `cap` every position of the head
+    (2/3 of cap) and of the tail (1/6), and a stride through the middle."""
     if n - 1 <= cap:
         return list(range(1, n))
     head, tail = (cap * 2) // 3, cap // 6
@@ -420,9 +421,8 @@ def judged_line(rec):
 class Judge:
     """Collects the distinct records, lets TLC judge every one of them, reports."""
 
-    def __init__(self, check, seed):
+    def __init__(self, check):
         self.check = check
-        self.seed = seed
         self.lines = {}         # json of the judged line -> [count, ref of the first example, its full record]
 
     def merge(self, lines):
@@ -505,7 +505,7 @@ def plan_runs(check, st, cls, concs):
         for ci in range(nconc):
             runs += [(ci, "whole"), (ci, "bytes"), (ci, "finsep")]
         if is_rich(st):
-            cap = 12 if check.quick else 48
+            cap = 12 if check.quick else 32
             for ci in range(1 if check.quick else nconc):
                 runs += [(ci, ["split", k]) for k in split_positions(lens[ci], cap)]
     elif not check.quick and in_quick_lattice(st):
@@ -529,7 +529,7 @@ def replay(check):
     d = json.load(open(check.replay))["detail"]
     if d.get("kind") == "model":
         raise MachineryError("replay of a design-level counterexample: run the check itself, the TLC trace is in the replay file")
-    j = Judge(check, check.seed)
+    j = Judge(check)
     if d["mode"] == "edge":
         st, cls = d["state"], d["cls"]
         events = [(t, bytes.fromhex(h), f) for t, h, f in d["events"]]
@@ -561,7 +561,7 @@ def run_workers(check, judge, tasks, sess_tasks):
         load[k] += len(t[3])
     for i, t in enumerate(sess_tasks):
         shards[i % nproc]["sessions"].append(t)
-    d = os.path.join(os.environ.get("C16_DEBUG_KEEP") or check.work, "workers")
+    d = os.path.join(check.work, "workers")
     os.makedirs(d, exist_ok=True)
     root = os.path.dirname(os.path.dirname(os.path.dirname(os.path.abspath(__file__))))
     procs = []
@@ -605,6 +605,7 @@ def run(check):
     _t(check, "M done")
     if r.violated:
         check.model_violation(r, "H3Conn")
+        check.sample({"design-level counterexample": r.violated})
         return
     shapes, pairs = {}, []
     for line in r.out.splitlines():
@@ -642,16 +643,10 @@ def run(check):
         concs = H.concretise(st["role"], cls["t"], cls["k"], check.seed)
         runs = plan_runs(check, st, cls, concs)
         tasks.append((len(tasks), st, cls, runs, check.seed))
-    if os.environ.get("C16_DEBUG_LIMIT"):
-        lim = int(os.environ["C16_DEBUG_LIMIT"])
-        rr = random.Random(1)
-        tasks = [(i,) + t[1:] for i, t in enumerate(rr.sample(tasks, min(lim, len(tasks))))]
     check.cov["edges_replayed"] = len(tasks)
     check.cov["edges_not_replayed_in_this_tier"] = skipped
-    nsess = 400 if check.quick else 6000
-    if os.environ.get("C16_DEBUG_LIMIT"):
-        nsess = 40
-    judge = Judge(check, check.seed)
+    nsess = 400 if check.quick else 4000
+    judge = Judge(check)
     cases, sessions = run_workers(check, judge, tasks, [(check.seed, i) for i in range(nsess)])
     _t(check, "R and V done")
     if sorted(cases) != list(range(len(tasks))) or sorted(sessions) != list(range(nsess)):
